@@ -31,6 +31,10 @@ class RelGen:
             s.wsn = getattr(s, 'wsn', 0) + 1
             return [32, 32] if s.wsn % 2 else [32]
         return [10, 32]
+    def pre_comma(s):
+        """optional blank between an entry and the comma that follows it ('a , b')"""
+        if not s.cfg.get('pre_comma') or not s.e.choose('pc', 2): return []
+        return s.ws() or [32]
     def ident(s, name, first=alnum, rest=identch, maxlen=None):
         n = s.e.choose(name + 'len', maxlen or s.cfg.get('ident_chars', 1)) + 1
         return [s.e.fresh_ascii(name, first)] + [s.e.fresh_ascii(name, rest) for _ in range(n - 1)]
@@ -80,7 +84,7 @@ class RelGen:
         ne = e.choose('E', cfg.get('entries', 1)) + 1
         first = True
         for ei in range(ne):
-            if not first: text += [44] + s.ws()
+            if not first: text += s.pre_comma() + [44] + s.ws()
             first = False
             if cfg.get('empty_entries') and e.choose('empty', 2):
                 text += [44] + s.ws()                       # an empty entry: ", ,"
